@@ -28,7 +28,8 @@ where
         usize::try_from(n).map_err(|e| io::Error::new(io::ErrorKind::InvalidData, e))
     })?;
 
-    let mut bins = IndexMap::with_capacity(n_bin);
+    // The count is read from the stream and cannot be trusted for preallocation.
+    let mut bins = IndexMap::new();
     let mut metadata = None;
 
     for _ in 0..n_bin {
